@@ -14,6 +14,8 @@
 //	fallback-follows-rank     the healthy owner is the first eligible entry of the ranked list
 //	served-by-exactly-one-pool / same-node-id-from-every-entry / node-id-equals-owner   (end to end, also while an owner that
 //	                          every node still regards as healthy does not answer, and after it is back)
+//	same-address-from-every-entry, node-id-names-serving-pool, probe-reaches-intended-node and the serving clauses on
+//	                          adversarial node ids and across failure / recovery / removal / join histories (serving_test.go)
 //	reported-ring-equals-membership, ranked-agreement and all of the above on every state of membership event histories
 //	                          (history_test.go)
 package c17
@@ -38,12 +40,23 @@ var run *vk.Run
 
 func TestMain(m *testing.M) {
 	run = vk.Start("C17", "exploration")
-	run.Rule("peer sets of size 1-8 from curated and seeded arbitrary strings (empty, blanks, common prefixes, unicode, invalid UTF-8, host:8081 and ip:port forms); every permutation for size<=5 (50/200 seeded shuffles above) x construction variants (full list, self omitted, spare capacity, AddPeer in that order, prefix+AddPeer, repeated AddPeer); 10^3 (thorough 10^4) subscriber ids (MACs, circuit ids, empty, unicode, raw bytes); every single removal from every other node, removal chains and re-adds; all 2^n health vectors for n<=4 (thorough n<=6) set through the real checkPeer against loopback HTTP servers answering 200/500/closed, seeded health walks on sets up to 8 through an in-memory transport; 3-node clusters over loopback HTTP with requests entering at every node, including an episode in which a node does not answer while every node still regards it as healthy; membership event histories judged in every state against a set as reference model: every sequence of AddPeer/RemovePeer events (every name of the universe incl. the node's own id may be added, every other name removed, present or not) up to depth 5 (quick: 4 from the ring {node alone} in all but the first universe; thorough: 6 and 7 from the rings {node alone} and {everybody} in the first universes), and in a second pass to depth 9 (thorough 13) without descending below a reported ring that was already explored to the remaining depth, over universes of 4 names, delivered to each node of the universe from configured starting rings (alone, everybody, one ring in between; thorough all 8), the same with health flips through the real checkPeer in the alphabet over 3 names to depth 4 (thorough 5), and 300 (thorough 2000) seeded clusters of 3-6 nodes plus up to 2 non-node names in which every node gets its own configured ring, its own random history of 6-35 events and a shuffled tail that takes all nodes to one target set and health view, after which nodes with equal reference set and view are compared with each other. Non-trivial = a distinct (universe, node, starting ring, event history; beyond 5 enumerated events: history shape and final set) with at least one effective membership change that ends with >=2 members and >=2 distinct owners over the sample, a distinct (peer set, order, variant) with >=2 peers whose subscriber sample was spread over >=2 owners, a distinct (set, observer, removed/unhealthy peer) where that peer owned some subscribers and other peers owned others, or a distinct end-to-end subscriber whose request was forwarded over HTTP from at least one entry node")
+	run.Rule("peer sets of size 1-8 from curated and seeded arbitrary strings (empty, blanks, common prefixes, unicode, invalid UTF-8, host:8081 and ip:port forms); every permutation for size<=5 (50/200 seeded shuffles above) x construction variants (full list, self omitted, spare capacity, AddPeer in that order, prefix+AddPeer, repeated AddPeer); 10^3 (thorough 10^4) subscriber ids (MACs, circuit ids, empty, unicode, raw bytes); every single removal from every other node, removal chains and re-adds; all 2^n health vectors for n<=4 (thorough n<=6) set through the real checkPeer against loopback HTTP servers answering 200/500/closed, seeded health walks on sets up to 8 through an in-memory transport; 3-node clusters over loopback HTTP with requests entering at every node, including an episode in which a node does not answer while every node still regards it as healthy; membership event histories judged in every state against a set as reference model: every sequence of AddPeer/RemovePeer events (every name of the universe incl. the node's own id may be added, every other name removed, present or not) up to depth 5 (quick: 4 from the ring {node alone} in all but the first universe; thorough: 6 and 7 from the rings {node alone} and {everybody} in the first universes), and in a second pass to depth 9 (thorough 13) without descending below a reported ring that was already explored to the remaining depth, over universes of 4 names, delivered to each node of the universe from configured starting rings (alone, everybody, one ring in between; thorough all 8), the same with health flips through the real checkPeer in the alphabet over 3 names to depth 4 (thorough 5), and 300 (thorough 2000) seeded clusters of 3-6 nodes plus up to 2 non-node names in which every node gets its own configured ring, its own random history of 6-35 events and a shuffled tail that takes all nodes to one target set and health view, after which nodes with equal reference set and view are compared with each other; serving (every node has its own disjoint subnet, the in-memory transport routes by and records the exact host a request was sent to): id sets that are adversarial as strings (one id a proper prefix of another, ids that differ in a port suffix only, numeric suffixes 1/10/100/1000, long common prefixes; 10 curated sets of 3-5 ids plus 6 (thorough 16) seeded sets built by extension, siblings and truncation) in every permutation of the peer list x 6 construction variants (self omitted, full list, a different rotation on every node, spare capacity, prefix then AddPeer, AddPeer only) and the host-name/host:port deployment form in every order: a static round of 12 (24) subscribers spread over all owners entering at every node, every health probe of every node, then one node (thorough: every node of a 3-set, two of a 4-set) fails (3 probes of every peer by every node), its subscribers are requested at every live node, it recovers, everything is requested again twice (former fallback first / last), a third is released and requested again; serving histories on these and on ordinary id sets: every node of every set joins late (AddPeer of a new owner), is removed and joins again (as it was / restarted), and 400 (3000) seeded sequences of 10-29 failures, recoveries, removals, joins, rounds and releases with common membership and health view on all live nodes. Non-trivial = a distinct (universe, node, starting ring, event history; beyond 5 enumerated events: history shape and final set) with at least one effective membership change that ends with >=2 members and >=2 distinct owners over the sample, a distinct (peer set, order, variant) with >=2 peers whose subscriber sample was spread over >=2 owners, a distinct (set, observer, removed/unhealthy peer) where that peer owned some subscribers and other peers owned others, or a distinct end-to-end subscriber whose request was forwarded over HTTP from at least one entry node, or a distinct (id set, order, variant, script, event sequence) serving history in which a subscriber whose owner changed was requested again while its former server was live")
 	run.Assume("nodes are constructed from independent copies of the peer list (NewPeerPool sorts the caller's slice in place)")
 	run.Assume("a peer set never contains both H and H:port: getPeerAddr resolves node id H to the listed address H:8081, i.e. the code treats the two as names of one node")
 	run.Assume("health views are per node; agreement under a health vector U is judged between nodes outside U that all see exactly U as unhealthy (a node always regards itself as eligible, by the anchored mechanism)")
 	run.Assume("event histories: a node never receives RemovePeer of its own id; health probes are delivered only for current members (as the health loop does) and a node's health view is read back through IsPeerHealthy; every node is compared with a node configured with exactly its reference set (so nodes with equal sets are compared with each other through that representative), and in the seeded clusters directly with each other")
 	run.Assume("loopback listeners use seeded port numbers (next free port on collision); the in-memory transport replaces only the TCP hop, the real handlers and the real http.Client code run")
+	run.Assume("serving histories: membership events reach every member (also one that does not answer its peers at the time); no request enters at a node while it does not answer its peers or is no member; a node that joins is constructed anew (empty pool) unless stated; subscriber ids are valid UTF-8 (a forwarded invalid id reaches the owner under another key: counted elsewhere, not C17's text); what a former fallback keeps in its pool after the subscriber moved back to the recovered owner is counted, not judged")
+	run.Floor("serving_requests", 100000)
+	run.Floor("serving_rounds_judged", 3000)
+	run.Floor("serving_configurations_distinct", 500)
+	run.Floor("serving_subscribers_held_by_exactly_the_owner_pool", 20000)
+	run.Floor("serving_probes_that_reached_the_intended_address", 20000)
+	run.Floor("serving_forwards_to_owner_listed_after_a_name_that_extends_its_name", 5000)
+	run.Floor("serving_probes_for_peer_listed_after_a_name_that_extends_its_name", 2000)
+	run.Floor("serving_history_rerequests_at_former_server_rerequest-after-peer-recovery", 1000)
+	run.Floor("serving_history_rerequests_at_former_server_rerequest-after-peer-added", 100)
+	run.Floor("serving_history_rerequests_at_former_server_rerequest-after-peer-restarted-and-added", 100)
 	run.Floor("owner_comparisons", 100000)
 	run.Floor("health_flips_observed", 50)
 	run.Floor("e2e_requests", 100)
